@@ -138,7 +138,10 @@ def run_one(case):
             before = lib_members(py7zr, arc) if cond == "intact" else None
             with open(os.path.join(wd, "new.txt"), "wb") as f:
                 f.write(b"appended")
+            raw_before = open(arc, "rb").read() if os.path.exists(arc) else None
             ev["exit"], so, se = cli(["a", arc, "new.txt"], wd)
+            if raw_before is not None:
+                ev["untouched"] = open(arc, "rb").read() == raw_before
             if ev["exit"] == 0:
                 names, data = lib_members(py7zr, arc)
                 ev["effect_ok"] = before is not None and names[:len(before[0])] == before[0] and all(data.get(k) == v for k, v in before[1].items()) \
@@ -203,7 +206,7 @@ def run(tier, rep, ev):
     combos = []
     for cmd, conds, opts in (("i", ["absent"], ["none"]),
                              ("c", ["absent", "exists"], ["none", "no-suffix", "dotted-name", "vol-digits", "vol-b", "vol-k", "vol-m", "vol-g", "vol-bad-unit", "vol-empty"]),
-                             ("a", ["intact", "absent"], ["none"]),
+                             ("a", ["intact", "absent", "header-damaged"], ["none"]),
                              ("l", ["intact", "intact-empty", "intact-dirs", "header-damaged", "data-damaged", "stored-damaged", "needs-password"], ["none", "verbose"]),
                              ("x", ["intact", "intact-empty", "intact-dirs", "header-damaged", "data-damaged", "stored-damaged", "needs-password", "unsupported-method"],
                               ["none", "verbose", "cwd"]),
